@@ -494,8 +494,10 @@ class LLMRails:
                         }
                     )
 
-                    # If it's not the last message, we also need to add the `UserMessage` event
-                    if idx != len(messages) - 1:
+                    # If the message was already answered, i.e., it was processed in a previous
+                    # turn, we also need to add the `UserMessage` event. A message that has not
+                    # been answered yet still needs to go through the input rails.
+                    if any(m["role"] == "assistant" for m in messages[idx + 1 :]):
                         events.append(
                             {
                                 "type": "UserMessage",
